@@ -782,7 +782,7 @@ def check_skymask(ctx, repo):
             return [None if c is None else (c[0], c[1] + [op]) for c in mask_chains(inner, depth + 1)]
         if isinstance(e, ast.Subscript):
             return then(e.value, 'keep')
-        if isinstance(e, ast.Call):
+        if isinstance(e, ast.Call) and _bitop(e) is None:
             cn = call_name(e)
             if cn in ('astype', 'view') and isinstance(e.func, ast.Attribute) and e.args:
                 t = src(e.args[0])
